@@ -37,7 +37,7 @@ ASSUMPTIONS = [
     "revision-5/6 passwords are limited to strings on which SASLprep reduces to NFKC; R<=4 *correct* passwords are Latin-1",
     "V4 files use the same crypt filter for strings and streams (the library reports others as unsupported, a documented outcome)",
 ]
-PROBES = ["V1R2 RC4-40", "V2R3 RC4", "V4R4 V2", "V4R4 AESV2", "V4R4 Identity", "V5R5 AESV3", "V5R6 AESV3", "owner password differs", "empty user password", "non-ASCII password", "long password", "no ID", "EncryptMetadata false", "object stream", "generation > 0", "object number above 65535", "string inside stream dictionary", "eviction happened", "wrong password non-Latin-1", "two encrypted documents read alternately"]
+PROBES = ["cross-reference table unusable (body scan)", "V1R2 RC4-40", "V2R3 RC4", "V4R4 V2", "V4R4 AESV2", "V4R4 Identity", "V5R5 AESV3", "V5R6 AESV3", "owner password differs", "empty user password", "non-ASCII password", "long password", "no ID", "EncryptMetadata false", "object stream", "generation > 0", "object number above 65535", "string inside stream dictionary", "eviction happened", "wrong password non-Latin-1", "two encrypted documents read alternately"]
 TIERS = {
     "quick": {"batches": 16, "runs": 400, "budget_s": 50},
     "thorough": {"batches": 128, "runs": 500, "budget_s": 1200},
@@ -62,7 +62,8 @@ def setup():
 
 
 PW_POOL = ["", "user", "owner", "a", "pass word", "pässwörd", "0123456789012345678901234567890123456789", "é", "x" * 33, "Secret-1"]
-PW_POOL_UNI = PW_POOL + ["абв", "パス", "naïve café " * 12, "é" * 64, "x" + "é" * 70, "a" * 126 + "ж"]
+PW_POOL_UNI = PW_POOL + ["абв", "パス", "naïve café " * 12, "é" * 64, "x" + "é" * 70, "a" * 126 + "ж", "x²+y²", "5µm", "1ª planta ¾", "ﬁne Ⅻ", "ＡＢＣ１２３", "a\u00a0b"]
+# (the last six change under NFKC / SASLprep: a writer derives the key from the prepared form, the user types the raw one)
 
 
 def gen_bytes(t, label):
@@ -210,7 +211,20 @@ def run(tape, ctx, item=None):
     fw = docs.build_pdf(objects, 1, info=7, form=form, pack=pack, gens=gens, encrypt=h, trailer_extra=trailer_extra)
     enc_pdf = fw.getvalue()
     cuts = list(fw.cuts)
-    desc = "V%d R%d %s keybits=%d user=%r owner=%r P=%d id=%s EncryptMetadata=%s form=%s pack=%s" % (cfg["v"], cfg["r"], cfg["cfm"], cfg["keybits"], cfg["user"], cfg["owner"], cfg["p"], "yes" if cfg["docid"] else "no", cfg["em"], form, pack)
+    lost_xref = form == "table" and t.coin(15, 100, "lostxref")
+    if lost_xref:
+        # the pointer to the cross-reference table is unusable: the body is scanned instead, and the keys still depend
+        # on each object's number and generation as written in its "N G obj" line
+        i = enc_pdf.rindex(b"startxref") + 9
+        j = i
+        while j < len(enc_pdf) and not enc_pdf[j : j + 1].isdigit():
+            j += 1
+        k = j
+        while k < len(enc_pdf) and enc_pdf[k : k + 1].isdigit():
+            k += 1
+        enc_pdf = enc_pdf[:j] + b"0" * (k - j) + enc_pdf[k:]  # startxref 0: the file header is no cross-reference section
+        ctx.probe("cross-reference table unusable (body scan)")
+    desc = "V%d R%d %s keybits=%d user=%r owner=%r P=%d id=%s EncryptMetadata=%s form=%s pack=%s%s" % (cfg["v"], cfg["r"], cfg["cfm"], cfg["keybits"], cfg["user"], cfg["owner"], cfg["p"], "yes" if cfg["docid"] else "no", cfg["em"], form, pack, " startxref-lost" if lost_xref else "")
     scen = []
     try:
         want_text = extract_text(BytesIO(plain_pdf))
